@@ -10,12 +10,24 @@ import Proofs.ForkName
 import Proofs.ForkNameInj
 import Proofs.ForkNameDiv
 import Proofs.ForkRoute
+import Proofs.ForkNameBatch
+import Proofs.ForkNameLen
+import Proofs.ForkNameSet
 import Gen.Facts
 
 namespace Props.C11
 open Martian.ForkName
 
 /-! ### Regenerated obligations -/
+
+/-- Every fact this file is stated against was really EXTRACTED from the
+working tree (not the committed fall-back value): if a refactoring defeats one
+of the go/ast patterns this obligation breaks instead of leaving the others
+true by default. -/
+theorem facts_really_extracted :
+    Gen.journalPairs_extracted = true ∧ Gen.jobJournalRe_extracted = true ∧
+    Gen.metadataFileNames_extracted = true ∧ Gen.journalPrefixes_extracted = true ∧
+    Gen.forkIdReenters_extracted = true ∧ Gen.forkIdSkipsEmpty_extracted = true := by decide
 
 /-- The journal regex in the source is the one `parseRun` was written for. -/
 theorem journal_regex_is_the_modelled_one :
@@ -265,6 +277,42 @@ theorem array_over_map_dirs_differ :
     forkIdString Gen.forkIdReenters Gen.forkIdSkipsEmpty [.arr 1 3 true, .key [0x61] [[0x61], [0x62]] true]
       ≠ forkIdString Gen.forkIdReenters Gen.forkIdSkipsEmpty [.arr 1 3 true, .key [0x62] [[0x61], [0x62]] true] := by decide
 
+/-! ### The fork set of one node -/
+
+/-- **The forks of ONE node, as `ForkIdSet.MakeForkIds` builds them for
+statically sized sources (the cartesian product of the sources' index / key
+ranges, any number of nested array and map calls and unresolved sources, map
+key sets without repetition), get pairwise distinct names**: the list of their
+id strings has no duplicate.  Stated against the regenerated recursion target
+and empty-part behaviour of `ForkId.forkId`.  (Forks added later by run-time
+expansion have dependent shapes: `forkName_distinct_after_divergence`.) -/
+theorem forkSet_names_nodup (srcs : List Src) (h : ∀ s ∈ srcs, srcOk s) :
+    ((makeForkIds srcs).map (forkIdString Gen.forkIdReenters Gen.forkIdSkipsEmpty)).Nodup := by
+  rw [forkId_reenters_at_map_part, forkId_skips_empty_parts]
+  exact forkSet_names_nodup_tt srcs h
+
+/-- … hence pairwise distinct directories and journal names: whenever two
+positions of the fork set carry ids `ia`, `ib` with the same journal encoding,
+they are the same position. -/
+theorem forkSet_journal_names_distinct (srcs : List Src) (h : ∀ s ∈ srcs, srcOk s) (i j : Nat) (ia ib : Bytes)
+    (hi : ((makeForkIds srcs).map (forkIdString Gen.forkIdReenters Gen.forkIdSkipsEmpty))[i]? = some (some ia))
+    (hj : ((makeForkIds srcs).map (forkIdString Gen.forkIdReenters Gen.forkIdSkipsEmpty))[j]? = some (some ib))
+    (he : journalEnc Gen.journalPairs ia = journalEnc Gen.journalPairs ib) : i = j := by
+  have hid := journal_name_injective ia ib he
+  subst hid
+  exact nodup_getElem?_inj _ (forkSet_names_nodup srcs h) i j _ hi hj
+
+-- non-vacuity: a map call (keys `a/b`, `.`) around an array call of 12 around an unresolved source: 24 forks, sources are legal,
+-- first source fastest
+example :
+    let srcs : List Src := [.arr 12, .keys [[0x2E], [0x61, 0x2F, 0x62]], .undet]
+    (∀ s ∈ srcs, srcOk s) ∧ (makeForkIds srcs).length = 24 ∧
+    (makeForkIds srcs)[13]? = some [.arr 1 12 true, .key [0x61, 0x2F, 0x62] [[0x2E], [0x61, 0x2F, 0x62]] true, .undet] := by
+  refine ⟨?_, by decide, by decide⟩
+  intro s hs
+  simp only [List.mem_cons, List.mem_nil_iff, or_false] at hs
+  rcases hs with rfl | rfl | rfl <;> simp [srcOk]
+
 /-! ### Journal file names are parsed back exactly -/
 
 /-- `parseRunFilename (journal name of x) = x` for every well-formed name:
@@ -347,6 +395,34 @@ theorem getFork_misroutes_as_found :
     let names : List Bytes := [[0x30], [0x32], [0x34], [0x31], [0x33], [0x35]]
     getForkOld names [0x32] = some 2 ∧ names[2]? = some [0x34] ∧
     getForkNew names [0x32] = some 1 := by decide
+
+/-- **The lookup is exact, so near-equal names are routed apart**: two forks of
+one node whose names differ — in the case of one letter, a trailing space, the
+normal form of an accent, the hex case of an escape, a leading zero, anything —
+are each found under their own name, at different positions.  No equivalence
+coarser than byte equality is applied. -/
+theorem getFork_distinguishes_near_equal (names : List Bytes) (i j : Nat) (a b : Bytes)
+    (hnd : names.Nodup) (hi : names[i]? = some a) (hj : names[j]? = some b) (ha : a ≠ []) (hb : b ≠ []) (hab : a ≠ b) :
+    getForkNew names a = some i ∧ getForkNew names b = some j ∧ i ≠ j := by
+  refine ⟨getForkNew_routes names i a hnd hi ha, getForkNew_routes names j b hnd hj hb, ?_⟩
+  intro e
+  subst e
+  rw [hi] at hj
+  exact hab (Option.some.inj hj)
+
+-- the fork table of a map call over the keys S1, plain, s1 (names `_S1`, `_plain`, `_s1`): hypotheses satisfiable, and the
+-- two case-distinct keys are found at their own positions 0 and 2
+example :
+    let names : List Bytes := [[0x5F, 0x53, 0x31], [0x5F, 0x70, 0x6C, 0x61, 0x69, 0x6E], [0x5F, 0x73, 0x31]]
+    names.Nodup ∧ getForkNew names [0x5F, 0x53, 0x31] = some 0 ∧ getForkNew names [0x5F, 0x73, 0x31] = some 2 := by decide
+
+/-- Negative witness (a lookup that compares the fork name up to letter case,
+`getForkFold`; a model of a class of defects, untied by design): with that fork
+table the notification of fork `s1` (position 2) is given to fork `S1`
+(position 0), which sorts first. -/
+theorem getFork_case_folding_misroutes :
+    let names : List Bytes := [[0x5F, 0x53, 0x31], [0x5F, 0x70, 0x6C, 0x61, 0x69, 0x6E], [0x5F, 0x73, 0x31]]
+    getForkFold names [0x5F, 0x73, 0x31] = some 0 ∧ getForkNew names [0x5F, 0x73, 0x31] = some 2 := by decide
 
 /-- End to end on the model: forks of one node with pairwise distinct ids
 `fork ++ tᵢ`; a notification rendered for fork `i` (any chunk, any attempt, any
@@ -474,6 +550,202 @@ reporting after the reset is credited to attempt 1. -/
 theorem stale_attempt_credited_without_freshness :
     let evs := [JobEv.reset, JobEv.notify 0 [0x63]]
     (1, [0x63]) ∈ (jobRun (fun _ : Nat => (7 : Nat)) ⟨0, 7, []⟩ evs).recorded := by decide
+
+
+/-! ### One refresh cycle over a batch of journal entries
+
+`Node.refreshState` reads the whole journal directory in one cycle.  The model
+of a cycle is the entry-by-entry map (`routeBatch`, `creditTable`): nothing is
+carried from one entry to the next.  The harness feeds batches through the real
+`refreshState` in ONE cycle and compares the credit table; a cache or any other
+state that makes the result for an entry depend on the entries read before it
+is a correspondence violation (`routeBatch_stateless`, `creditTable_stateless`
+say what the model promises). -/
+
+/-- Batch lift of `route_roundtrip`: whatever set of jobs of the tree wrote a
+notification between two cycles (any nodes — also ones whose names are
+prefixes of each other —, any forks, split / join / chunk jobs, any attempts,
+any metadata files, in any order and multiplicity), every entry is routed to
+exactly the (node, fork, chunk digits, uniquifier, file) that wrote it. -/
+theorem routeBatch_roundtrip (top : Bytes) (nodes : List NodeM) (nch : Nat → Nat → Nat)
+    (hnd : (nodes.map (·.fqid)).Nodup) (recs : List JobRec) (hv : ∀ r ∈ recs, ValidJob top nodes nch r) :
+    routeBatch top nodes (recs.map JobRec.name) = recs.map fun r => some r.target :=
+  routeBatch_jobNames top nodes nch hnd recs hv
+
+/-- Down to the metadata object: the journal name a job writes is delivered to
+exactly that job's object (fork / split / join / chunk `i`, the chunk index
+read back from its zero-padded decimal rendering at every width), with the
+uniquifier it carries and the bare metadata file name. -/
+theorem deliver_roundtrip (top : Bytes) (nodes : List NodeM) (nch : Nat → Nat → Nat)
+    (hnd : (nodes.map (·.fqid)).Nodup) (r : JobRec) (v : ValidJob top nodes nch r) :
+    deliver top nodes nch r.name = some ⟨r.owner, r.uniq.getD [], r.file⟩ :=
+  deliver_jobName top nodes nch hnd r v
+
+/-- **Credit table of a cycle**: for every batch of notifications written by
+jobs of the tree, each metadata object `o` is credited exactly the files that
+`o` itself wrote under its current uniquifier — in the batch's order, with
+multiplicity — and nothing else. -/
+theorem creditTable_exact (top : Bytes) (nodes : List NodeM) (nch : Nat → Nat → Nat) (uq : Owner → Bytes)
+    (hnd : (nodes.map (·.fqid)).Nodup) (recs : List JobRec) (hv : ∀ r ∈ recs, ValidJob top nodes nch r) (o : Owner) :
+    creditedTo top nodes nch uq (recs.map JobRec.name) o
+      = ((recs.filter (JobRec.current uq)).filter (fun r => r.owner = o)).map (·.file) :=
+  creditedTo_jobNames top nodes nch uq hnd recs hv o
+
+-- non-vacuity: ID.ps with nodes P.X (forks 0..10, 2 chunks each) and P.X1 (fork 0): the chunk-1 job of P.X fork 10 and
+-- the split job of P.X1 fork 0 are valid job records ("P.X"+"10" = "P.X1"+"0" as plain concatenations)
+example :
+    let top : Bytes := [0x49, 0x44, 0x2E, 0x70, 0x73]
+    let px : Bytes := [0x50, 0x2E, 0x58]
+    let px1 : Bytes := [0x50, 0x2E, 0x58, 0x31]
+    let file : Bytes := [0x63, 0x6F, 0x6D, 0x70, 0x6C, 0x65, 0x74, 0x65]
+    let nodes : List NodeM := [⟨top ++ cDot :: px, [[0x30], [0x31], [0x32], [0x33], [0x34], [0x35], [0x36], [0x37], [0x38], [0x39], [0x31, 0x30]]⟩,
+      ⟨top ++ cDot :: px1, [[0x30]]⟩]
+    (nodes.map (·.fqid)).Nodup ∧
+    ValidJob top nodes (fun _ _ => 2) ⟨0, 10, .chunk 1, none, file, px, [0x31, 0x30], 1⟩ ∧
+    ValidJob top nodes (fun _ _ => 2) ⟨1, 0, .split, none, file, px1, [0x30], 1⟩ := by
+  refine ⟨by decide, ⟨⟨_, rfl, rfl, by decide, rfl⟩, by decide, by decide, by decide, by decide, (by intro u h; cases h), ?_⟩,
+    ⟨⟨_, rfl, rfl, by decide, rfl⟩, by decide, by decide, by decide, by decide, (by intro u h; cases h), ?_⟩⟩
+  · simp only [slotValid]; decide
+  · simp only [slotValid]; decide
+
+/-- … nobody else receives anything: whatever a cycle credits to an object `o`
+(for ANY directory content, valid names or not) is an entry of the batch that is
+literally the journal name of `o`'s node and fork, whose chunk digits / file
+prefix select `o`'s slot, and that carries `o`'s current uniquifier. -/
+theorem creditTable_nobody_else (top : Bytes) (nodes : List NodeM) (nch : Nat → Nat → Nat) (uq : Owner → Bytes)
+    (batch : List Bytes) (o : Owner) (name : Bytes) (h : (o, name) ∈ creditTable top nodes nch uq batch) :
+    ∃ s ∈ batch, ∃ nd p nm ch u file, nodes[o.node]? = some nd ∧ (nd.fqid = top ++ cDot :: p ∨ nd.fqid = p) ∧ p ≠ [] ∧
+      nd.forks[o.fork]? = some nm ∧ s = JName.render ⟨p, nm, ch, u, file⟩ ∧
+      slotOf (nch o.node o.fork) ch file = some (o.slot, name) ∧ uq o = u.getD [] := by
+  obtain ⟨s, hs, d, hd, ho, hf, hu⟩ := creditTable_mem top nodes nch uq batch o name h
+  obtain ⟨nd, p, nm, ch, u, file, h1, h2, h3, h4, h5, h6, h7⟩ := deliver_sound top nodes nch s d hd
+  subst ho
+  subst hf
+  exact ⟨s, hs, nd, p, nm, ch, u, file, h1, h2, h3, h4, h5, h6, by rw [hu, h7]⟩
+
+
+
+
+
+/-- Negative witness: a cycle that memoises the (node, fork) lookup under the
+plain concatenation `fqid ++ forkPart` is NOT the map of `route`.  With nodes
+`P.X` (11 forks) and `P.X1` (1 fork), the entries `P.X.fork10.chnk0.complete`
+and `P.X1.fork0.chnk0.log` read in one cycle share the key `P.X10`: the second
+one is handed to node 0 / fork 10 instead of node 1 / fork 0.  (The harness's
+batch stream sends such pairs through the real `refreshState`.) -/
+theorem memo_by_concatenation_misroutes :
+    let top : Bytes := [0x49, 0x44, 0x2E, 0x70, 0x73]
+    let px : Bytes := [0x50, 0x2E, 0x58]
+    let px1 : Bytes := [0x50, 0x2E, 0x58, 0x31]
+    let nodes : List NodeM := [⟨top ++ cDot :: px, [[0x30], [0x31], [0x32], [0x33], [0x34], [0x35], [0x36], [0x37], [0x38], [0x39], [0x31, 0x30]]⟩,
+      ⟨top ++ cDot :: px1, [[0x30]]⟩]
+    let e1 := JName.render ⟨px, [0x31, 0x30], some [0x30], none, [0x63, 0x6F, 0x6D, 0x70, 0x6C, 0x65, 0x74, 0x65]⟩
+    let e2 := JName.render ⟨px1, [0x30], some [0x30], none, [0x6C, 0x6F, 0x67]⟩
+    (routeBatch top nodes [e1, e2]).map (Option.map fun t => (t.1, t.2.1)) = [some (0, 10), some (1, 0)] ∧
+    (routeMemoConcat top nodes [] [e1, e2]).map (Option.map fun t => (t.1, t.2.1)) = [some (0, 10), some (0, 10)] := by
+  decide
+
+/-! ### Name lengths (keys used as directory and journal names) -/
+
+/-- `makeKeySafe` lengthens a key by exactly two bytes per escaped byte … -/
+theorem pathEscape_length_exact (k : Bytes) : (pathEscape k).length = k.length + 2 * escCount k :=
+  pathEscape_length k
+
+/-- … so a safe key is between one and three times as long as the key, and
+exactly as long when no byte needs escaping. -/
+theorem pathEscape_length_bounds (k : Bytes) :
+    k.length ≤ (pathEscape k).length ∧ (pathEscape k).length ≤ 3 * k.length ∧
+    (k.all (fun c => !shouldEscape c) = true → (pathEscape k).length = k.length) := by
+  have h := pathEscape_length k
+  have h2 := escCount_le k
+  refine ⟨by omega, by omega, ?_⟩
+  intro hall
+  rw [h, escCount_zero k hall]; rfl
+
+/-- The fork directory of map key `k` is `fork_` + safe key: `5 + |k| + 2·(escaped bytes)`. -/
+theorem mapForkDir_length_exact (k : Bytes) : (mapForkDir k).length = 5 + k.length + 2 * escCount k :=
+  mapForkDir_length k
+
+/-- Whatever its bytes, a key of at most 83 bytes gets a directory name within
+`NAME_MAX` = 255; a key without escaped bytes may have 250. -/
+theorem mapForkDir_fits (k : Bytes) :
+    (k.length ≤ 83 → (mapForkDir k).length ≤ nameMax) ∧
+    (k.all (fun c => !shouldEscape c) = true → k.length ≤ 250 → (mapForkDir k).length ≤ nameMax) := by
+  have h := mapForkDir_length k
+  have h2 := escCount_le k
+  refine ⟨fun hk => by unfold nameMax; omega, fun hall hk => ?_⟩
+  rw [h, escCount_zero k hall]; unfold nameMax; omega
+
+set_option maxRecDepth 100000 in
+/-- Both bounds are sharp: 84 bytes `0xFF` (a key of 84 bytes, well within the
+255 bytes a file name may have) give a 257-byte directory name, and 251 letters
+give 256 — `mkdir` fails with ENAMETOOLONG for a legal map key. -/
+theorem mapForkDir_exceeds_name_max :
+    (List.replicate 84 (0xFF : UInt8)).length ≤ nameMax ∧ (mapForkDir (List.replicate 84 0xFF)).length = 257 ∧
+    (List.replicate 251 (0x61 : UInt8)).length ≤ nameMax ∧ (mapForkDir (List.replicate 251 0x61)).length = 256 := by
+  refine ⟨by decide, ?_, by decide, ?_⟩
+  · rw [mapForkDir_length]; decide
+  · rw [mapForkDir_length]; decide
+
+/-- The fork part of the journal name (`encodeJournalName` of the directory
+name, replacer pairs as regenerated) is at most `5 + 5·|k|` bytes: an escaped
+byte `%XX` becomes `%25XX`. -/
+theorem journal_forkpart_length (k : Bytes) :
+    (journalEnc Gen.journalPairs (mapForkDir k)).length ≤ 5 + 5 * k.length :=
+  journalEnc_mapForkDir_length k
+
+/-- Length of a journal file name; it is ONE path component (the journal is a
+flat directory), so it too must stay within `NAME_MAX`. -/
+theorem journal_name_length (x : JName) :
+    x.render.length = x.fqid.length + 5 + x.forkPart.length +
+      (match x.chunk with | some d => 5 + d.length | none => 0) +
+      (match x.uniq with | some u => 2 + u.length | none => 0) + 1 + x.file.length :=
+  render_length x
+
+/-- The journal name of a chunk job of the fork for key `k` fits `NAME_MAX`
+when `|fqid| + 5·|k| + |digits| + |file| ≤ 228` (uniquifier present). -/
+theorem journal_name_fits (fqid k d u file : Bytes) (hu : u.length = 10)
+    (h : fqid.length + 5 * k.length + d.length + file.length ≤ 228) :
+    (JName.render ⟨fqid, (journalEnc Gen.journalPairs (mapForkDir k)).drop 4, some d, some u, file⟩).length ≤ nameMax := by
+  rw [render_length]
+  have := journalEnc_mapForkDir_length k
+  simp only [List.length_drop, hu]
+  unfold nameMax
+  omega
+
+-- non-vacuity of journal_name_fits, and sharpness of the regime: a 40-byte key of bytes 0xFF under TOP.S
+example : ([0x54, 0x4F, 0x50, 0x2E, 0x53] : Bytes).length + 5 * (List.replicate 40 (0xFF : UInt8)).length + 1 + 8 ≤ 228 := by decide
+
+/-! ### definitional unfoldings (documentation of the model, not guarantees)
+
+`routeBatch` / `creditTable` are DEFINED as the entry-by-entry map, so the four
+statements below hold by unfolding: they say what the model of a refresh cycle
+promises (no state between entries, no dependence on the listing order).  That
+the REAL `refreshState` behaves like this map is checked by the batch
+differential stream of the harness, not by these theorems. -/
+
+/-- A cycle carries no state between entries: the routes of a batch are the
+routes of its parts, whatever was read before … -/
+theorem routeBatch_stateless (top : Bytes) (nodes : List NodeM) (a b : List Bytes) :
+    routeBatch top nodes (a ++ b) = routeBatch top nodes a ++ routeBatch top nodes b := by
+  simp [routeBatch]
+
+/-- … and so is the credit table. -/
+theorem creditTable_stateless (top : Bytes) (nodes : List NodeM) (nch : Nat → Nat → Nat) (uq : Owner → Bytes)
+    (a b : List Bytes) :
+    creditTable top nodes nch uq (a ++ b) = creditTable top nodes nch uq a ++ creditTable top nodes nch uq b := by
+  simp [creditTable]
+
+/-- The order of the directory listing does not matter: permuting the batch
+permutes the routes … -/
+theorem routeBatch_perm (top : Bytes) (nodes : List NodeM) (a b : List Bytes) (h : a.Perm b) :
+    (routeBatch top nodes a).Perm (routeBatch top nodes b) := h.map _
+
+/-- … and every object is credited the same multiset of files. -/
+theorem creditedTo_perm (top : Bytes) (nodes : List NodeM) (nch : Nat → Nat → Nat) (uq : Owner → Bytes)
+    (a b : List Bytes) (h : a.Perm b) (o : Owner) :
+    (creditedTo top nodes nch uq a o).Perm (creditedTo top nodes nch uq b o) :=
+  (h.filterMap _).filterMap _
 
 /-- `Metadata.cache`: a notification is recorded iff it carries the current
 attempt's uniquifier (a stale attempt's notification is ignored). -/
